@@ -191,6 +191,12 @@ class ASTToPymbolic(ASTMapper):
 
     def map_Compare(self, expr):  # noqa
         # (expr left, cmpop* ops, expr* comparators)
+        if len(expr.ops) != 1:
+            # FIXME: Support strung-together comparisons
+            raise NotImplementedError(
+                f"{type(self).__name__} does not know how to map "
+                "strung-together comparisons")
+
         op, = expr.ops
 
         try:
@@ -198,9 +204,8 @@ class ASTToPymbolic(ASTMapper):
         except KeyError:
             raise NotImplementedError(
                 f"{type(self).__name__} does not know how to map operator "
-                f"'{type(expr.op).__name__}'") from None
+                f"'{type(op).__name__}'") from None
 
-        # FIXME: Support strung-together comparisons
         right, = expr.comparators
 
         return p.Comparison(self.rec(expr.left), comp, self.rec(right))
